@@ -513,6 +513,12 @@ pub fn c01(r: &mut Rng, sz: &Sizes, out: &mut Vec<String>) {
         let hexes: Vec<String> = h.iter().map(|d| crate::wire::hex(d.as_bytes())).collect();
         out.push(format!("sourcesdoc\t{}\t!ok *", hexes.join("\t")));
     }
+    for h in position_histories(true) {
+        let hexes: Vec<String> = h.iter().map(|d| crate::wire::hex(d.as_bytes())).collect();
+        for n in 1..=hexes.len() {
+            out.push(format!("sourcesdoc\t{}\t!ok *", hexes[..n].join("\t")));
+        }
+    }
     // one member name spelled differently in sibling elements, as a source
     for t in spelled_names().1 {
         out.push(format!("sourcesdoc\t{}\t!ok *", crate::wire::hex(t.as_bytes())));
@@ -579,6 +585,10 @@ pub fn c08(r: &mut Rng, sz: &Sizes, out: &mut Vec<String>) {
         for j in 0..fixed {
             out.push(format!("p_c08\t{}\t{}\t!ok *", hex_doc(&pool[i], 0), hex_doc(&pool[j], 0)));
         }
+    }
+    // both merge orders for every ordered pair of twenty small documents at every kind of position
+    for h in position_histories(false) {
+        out.push(format!("p_c08\t{}\t{}\t!ok *", crate::wire::hex(h[0].as_bytes()), crate::wire::hex(h[1].as_bytes())));
     }
     for _ in 0..sz.docs {
         let d = r.pick(&pool).clone();
@@ -676,6 +686,41 @@ pub fn small_histories() -> Vec<Vec<String>> {
     out
 }
 
+/// twenty small documents and six one-hole contexts: "what does this position keep when X meets Y there"
+pub const POS_DOCS: [&str; 20] = [
+    "null", "1", "\"s\"", "[]", "[1]", "[null]", "{}", "{\"a\":1}", "[1,\"x\"]", "[[]]", "[[],[]]", "[[],[null]]", "[[1],[2]]", "[[1],[\"x\"]]",
+    "[{\"x\":1}]", "[{\"x\":1},{\"y\":2}]", "[[{\"x\":1}],[{\"y\":2}]]", "[[{\"x\":1},{\"y\":2}],[{\"x\":3},{\"y\":4}]]", "[1,[2]]", "[[1,\"x\"],[2,\"y\"]]",
+];
+pub const POS_CTX: [&str; 6] = ["[@,1]", "[\"g\",@]", "{\"k\":@}", "[@]", "[{\"k\":@},{}]", "{\"k\":[@,true]}"];
+
+/// every ordered pair of POS_DOCS in every context (2-histories), and every ordered triple in two contexts
+pub fn position_histories(triples: bool) -> Vec<Vec<String>> {
+    let mut out = Vec::new();
+    for c in POS_CTX {
+        for x in POS_DOCS {
+            for y in POS_DOCS {
+                if x != y {
+                    out.push(vec![c.replace('@', x), c.replace('@', y)]);
+                }
+            }
+        }
+    }
+    if triples {
+        for c in [POS_CTX[0], POS_CTX[2]] {
+            for x in POS_DOCS {
+                for y in POS_DOCS {
+                    for z in POS_DOCS {
+                        if x != y && y != z {
+                            out.push(vec![c.replace('@', x), c.replace('@', y), c.replace('@', z)]);
+                        }
+                    }
+                }
+            }
+        }
+    }
+    out
+}
+
 /// WIDTH for histories: n equally shaped sources and one last source that differs (another kind, a missing
 /// member, a null), n around powers of two up to 300
 pub fn width_histories() -> Vec<Vec<String>> {
@@ -704,7 +749,7 @@ pub fn width_histories() -> Vec<Vec<String>> {
 pub fn c03(r: &mut Rng, sz: &Sizes, out: &mut Vec<String>) {
     reachable_ops(r, sz, out);
     infer_ops(r, sz, out, false);
-    for h in small_histories().into_iter().chain(width_histories()) {
+    for h in small_histories().into_iter().chain(width_histories()).chain(position_histories(true)) {
         let hexes: Vec<String> = h.iter().map(|d| crate::wire::hex(d.as_bytes())).collect();
         out.push(format!("p_c03\t{}\t!ok", hexes.join("\t")));
     }
@@ -793,23 +838,13 @@ pub fn c09(r: &mut Rng, sz: &Sizes, out: &mut Vec<String>) {
         let hexes: Vec<String> = h.iter().map(|d| hex_doc(d, r.below(4))).collect();
         out.push(format!("p_c09\t{k}\t{}\t!ok *", hexes.join("\t")));
     }
-    // one position of a two-slot tuple taken by every ordered pair of small documents (`[X,1]` then `[Y,1]`, then each
-    // again): what the position keeps when a tuple meets an array there, an array a tuple, a narrower a wider one
-    {
-        let xs = [
-            "null", "1", "\"s\"", "[]", "[1]", "[null]", "{}", "{\"a\":1}", "[1,\"x\"]", "[[]]", "[[],[]]", "[[],[null]]", "[[1],[2]]", "[[1],[\"x\"]]",
-            "[{\"x\":1}]", "[{\"x\":1},{\"y\":2}]", "[[{\"x\":1}],[{\"y\":2}]]", "[[{\"x\":1},{\"y\":2}],[{\"x\":3},{\"y\":4}]]", "[1,[2]]", "[[1,\"x\"],[2,\"y\"]]",
-        ];
-        let hx = |t: &str| crate::wire::hex(t.as_bytes());
-        for x in xs {
-            for y in xs {
-                if x != y {
-                    out.push(format!("p_c09\t{k}\t{}\t{}\t!ok *", hx(&format!("[{x},1]")), hx(&format!("[{y},1]"))));
-                    out.push(format!("p_c09\t{k}\t{}\t{}\t!ok *", hx(&format!("[\"g\",{x}]")), hx(&format!("[\"g\",{y}]"))));
-                    out.push(format!("p_cycle\t{}\t{}", hx(&format!("[{x},1]")), hx(&format!("[{y},1]"))));
-                }
-            }
-        }
+    // one position (a tuple slot, a member, an array element, an optional member, ...) taken by every ordered pair of
+    // twenty small documents, then each re-fed: what the position keeps when a tuple meets an array there, an array
+    // a tuple, a narrower a wider one
+    for h in position_histories(false) {
+        let hexes: Vec<String> = h.iter().map(|d| crate::wire::hex(d.as_bytes())).collect();
+        out.push(format!("p_c09\t{k}\t{}\t!ok *", hexes.join("\t")));
+        out.push(format!("p_cycle\t{}", hexes.join("\t")));
     }
     // groups of documents fed over and over in turn (a, b, a, b, ...): every ordered pair and a sample of
     // triples of the fixed documents, each also below a member and below an array; random groups
